@@ -37,6 +37,7 @@ type Call struct {
 }
 
 type Scenario struct {
+	World              string   `json:"world"` // feature configuration of the regenerated world (see Worlds)
 	ID                 string   `json:"id"`
 	Seed               uint64   `json:"seed"`
 	Tasks              [][]Call `json:"tasks"`
@@ -192,33 +193,59 @@ func (e *Engine) RunJob(bin string, scs []Scenario, timeout time.Duration) ([]Re
 	return results, nil
 }
 
-// RunAll distributes scenarios over processes.
-func (e *Engine) RunAll(bin string, scs []Scenario, perProc, jobs int) ([]Result, error) {
+// RunAll distributes scenarios over processes of the binary of their world.
+func (e *Engine) RunAll(race bool, scs []Scenario, perProc, jobs int) ([]Result, error) {
 	results := make([]Result, len(scs))
 	var wg sync.WaitGroup
 	sem := make(chan struct{}, jobs)
 	var firstErr error
 	var emu sync.Mutex
-	for lo := 0; lo < len(scs); lo += perProc {
-		hi := min(lo+perProc, len(scs))
-		wg.Add(1)
-		sem <- struct{}{}
-		go func(lo, hi int) {
-			defer wg.Done()
-			defer func() { <-sem }()
-			rs, err := e.RunJob(bin, scs[lo:hi], 30*time.Minute)
-			if err != nil {
-				emu.Lock()
-				if firstErr == nil {
-					firstErr = err
+	byWorld := map[string][]int{}
+	for i, sc := range scs {
+		byWorld[sc.World] = append(byWorld[sc.World], i)
+	}
+	for w, idxs := range byWorld {
+		bin := e.Bin(w, race)
+		for lo := 0; lo < len(idxs); lo += perProc {
+			hi := min(lo+perProc, len(idxs))
+			wg.Add(1)
+			sem <- struct{}{}
+			go func(bin string, part []int) {
+				defer wg.Done()
+				defer func() { <-sem }()
+				batch := make([]Scenario, len(part))
+				for k, i := range part {
+					batch[k] = scs[i]
 				}
-				emu.Unlock()
-			}
-			copy(results[lo:hi], rs)
-		}(lo, hi)
+				rs, err := e.RunJob(bin, batch, 30*time.Minute)
+				if err != nil {
+					emu.Lock()
+					if firstErr == nil {
+						firstErr = err
+					}
+					emu.Unlock()
+				}
+				for k, i := range part {
+					if k < len(rs) {
+						results[i] = rs[k]
+					}
+				}
+			}(bin, idxs[lo:hi])
+		}
 	}
 	wg.Wait()
 	return results, firstErr
+}
+
+// Bin returns the simulation binary of a world.
+func (e *Engine) Bin(world string, race bool) string {
+	if world == "" {
+		world = Worlds[0].Name
+	}
+	if race {
+		return e.Race[world]
+	}
+	return e.Plain[world]
 }
 
 // ---- sampling
@@ -748,10 +775,10 @@ func (e *Engine) check(c *core.Ctx, sp spec) (*core.Outcome, error) {
 	var perr, rerr error
 	var wg sync.WaitGroup
 	wg.Add(1)
-	go func() { defer wg.Done(); plainRes, perr = e.RunAll(e.Plain, scs, 40, c.Jobs) }()
+	go func() { defer wg.Done(); plainRes, perr = e.RunAll(false, scs, 40, c.Jobs) }()
 	if len(raceScs) > 0 {
 		wg.Add(1)
-		go func() { defer wg.Done(); raceRes, rerr = e.RunAll(e.Race, raceScs, 20, c.Jobs) }()
+		go func() { defer wg.Done(); raceRes, rerr = e.RunAll(true, raceScs, 20, c.Jobs) }()
 	}
 	wg.Wait()
 	if perr != nil {
@@ -896,7 +923,7 @@ func (e *Engine) check(c *core.Ctx, sp spec) (*core.Outcome, error) {
 			"stubbed_components":              []string{"sockets and net/http's Server/Transport connection management -> SimTransport and simulated links", "crypto/rand.Reader -> seeded reader (multipart boundaries)", "sync.Pool and jx pools -> deterministic poisoning free lists", "goroutine scheduling at link, callback and pipe-writer points -> fake-clock time slicing", "OpenTelemetry: no-op providers"},
 		},
 		Assumptions: []string{
-			"one fixed world (7 operations) in one feature configuration: shapes outside it are not examined",
+			"one fixed world (9 operations) regenerated in two feature configurations (a: defaults + ogen/unimplemented; b: client request validation, server response validation, request options, no OpenTelemetry): shapes outside it are not examined",
 			"the typed echo handler, the expected-value model (defaults from the spec) and the canonical renderer in simsrc/xsim are trusted; each is cross-checked against the alone runs",
 		},
 	}
@@ -936,7 +963,7 @@ func (e *Engine) minimise(sc Scenario, sp spec, key string) (Scenario, int) {
 		if runs > 60 {
 			return false
 		}
-		rs, err := e.RunJob(e.Plain, []Scenario{x}, 5*time.Minute)
+		rs, err := e.RunJob(e.Bin(x.World, false), []Scenario{x}, 5*time.Minute)
 		if err != nil || len(rs) != 1 || rs[0].Missing {
 			return false
 		}
@@ -1011,10 +1038,7 @@ func (e *Engine) replay(c *core.Ctx, sp spec) (*core.Outcome, error) {
 	if err := json.Unmarshal(c.Replay.Scenario, &rs); err != nil {
 		return nil, build.Toolf("replay: %v", err)
 	}
-	bin := e.Plain
-	if rs.Binary == "race" {
-		bin = e.Race
-	}
+	bin := e.Bin(rs.Scenario.World, rs.Binary == "race")
 	res, err := e.RunJob(bin, []Scenario{rs.Scenario}, 20*time.Minute)
 	if err != nil {
 		return nil, err
